@@ -169,7 +169,40 @@ class Ctx:
                                    {'differing': diff[:20], 'one_process': pick(self._tables, diff[:3]), 'another_process': pick(t2, diff[:3])},
                                    concrete=False)
                     break
+            self._regen_all()
         return self._tables
+
+    def _regen_all(self):
+        """Every generated Lean module is rewritten from the tables of the code as it is now, whatever the check:
+        the driver imports all of them, and a module left over from a run against another tree would be a stale tie."""
+        import tolean
+        from rx import Unsupported
+        self.regen_errors = {}
+        for rel, fn in (('Chains.lean', tolean.chains), ('Dists.lean', tolean.dists), ('AaTables.lean', tolean.aa_tables),
+                        ('LogRx.lean', tolean.log_rx)):
+            try:
+                self.regen({rel: fn(self._tables)})
+            except (Unsupported, KeyError) as e:
+                self.regen_errors[rel] = '%s: %s' % (type(e).__name__, e)
+
+    def generated_needed(self):
+        """Generated modules the property theorems of this check depend on (transitive imports of Props/<pid>.lean)."""
+        seen, todo, need = set(), ['AaVerif.Props.%s' % self.pid], set()
+        while todo:
+            m = todo.pop()
+            if m in seen:
+                continue
+            seen.add(m)
+            f = os.path.join(LEAN, *m.split('.')) + '.lean'
+            if not os.path.exists(f):
+                continue
+            for l in open(f):
+                mm = re.match(r'import (AaVerif\.\S+)', l)
+                if mm:
+                    if mm.group(1).startswith('AaVerif.Generated.'):
+                        need.add(mm.group(1).split('.')[-1] + '.lean')
+                    todo.append(mm.group(1))
+        return need
 
     # ---------------------------------------------------------------- Lean side
     def lake(self, targets, timeout=3000):
@@ -209,6 +242,9 @@ class Ctx:
         Returns list of broken obligations (names)."""
         pid = self.pid
         broken = []
+        for rel in sorted(self.generated_needed()):
+            if rel in getattr(self, 'regen_errors', {}):
+                broken.append('translation of the tables of the code into %s failed (%s): the theorems are not re-checked against this tree' % (rel, self.regen_errors[rel]))
         mods = ['AaVerif.Props.%s' % pid]
         expected = list(expected)
         if thorough_extra and self.tier == 'thorough':
@@ -222,7 +258,7 @@ class Ctx:
             names = failing_decls(os.path.join(LEAN, 'AaVerif', 'Props', pid + '.lean'), out)
             if not names:
                 names = ['<build of AaVerif.Props.%s failed>' % pid]
-            broken = names
+            broken += names
             self.cov['build_log_tail'] = out[-3000:]
             self.cov['discharged'] = max(0, len(expected) - len(names))
             self.cov['broken'] += ['obligation:' + n for n in names]
